@@ -129,7 +129,7 @@ def h_narrow(ta, n_ts, p_tsi=0, p_peer=0):
     return ['chosen']
 
 
-def h_initiator(n_ts, mode_conf, notify_kind):
+def h_initiator(n_ts, mode_conf, notify_kind, sit='new'):
     """one step of the real IkeSa: the initiator of a CREATE_CHILD_SA exchange receives a response whose TSi/TSr selectors (n_ts each, all fields
     symbolic) and transport-mode notification are arbitrary; whatever reaches the kernel must lie inside what it offered and keep the mode"""
     from symx import core
@@ -137,7 +137,7 @@ def h_initiator(n_ts, mode_conf, notify_kind):
     eng = core.engine()
     m, ik = MODS['message'], MODS['ikesa']
     p = world.Pair(mode=mode_conf)
-    req = p.to_state('A', 'NEW_CHILD_REQ_SENT')
+    req = p.to_state('A', 'NEW_CHILD_REQ_SENT' if sit == 'new' else 'REK_CHILD_REQ_SENT')
     a = p.a
     offered_i, offered_r = list(a.creating_child_sa.tsi), list(a.creating_child_sa.tsr)
     res = p.send('B', req)
@@ -180,6 +180,10 @@ def h_initiator(n_ts, mode_conf, notify_kind):
     off_r = [(int(t.ts_type), int(t.ip_proto), t.start_port, t.end_port, int(t.start_addr), int(t.end_addr)) for t in offered_r]
     inside = lambda f, offs: core.sym_or(*[core.sym_not(core.sym_and(_in(f, _witness(f, o)), core.sym_not(_in(o, _witness(f, o))))) for o in offs])
     eng.prove(core.sym_and(inside(fi, off_i), inside(fr, off_r)), 'selectors wider than what the initiator offered reached the kernel (a widened response was installed)')
+    if sit == 'rekey':
+        # for a rekey the selectors equal those of the replaced CHILD_SA (which are the only ones offered)
+        same = lambda f, o: core.sym_and(f[1] == o[1], f[2] == o[2], f[3] == o[3], f[4] == o[4], f[5] == o[5])
+        eng.prove(core.sym_and(same(fi, off_i[0]), same(fr, off_r[0])), 'the CHILD_SA installed by a rekey has other selectors than the CHILD_SA it replaces (a narrowed response was installed)')
     want_transport = (mode_conf == 'transport')
     has_notify = any(x.type == m.Payload.Type.NOTIFY and x.notification_type == m.PayloadNOTIFY.Type.USE_TRANSPORT_MODE for x in enc)
     if has_notify != want_transport or int(ch.mode) != (0 if want_transport else 1):
@@ -484,6 +488,9 @@ def build_instances(tier):
                     continue
                 inst.append(Instance(f'initiator response |TS|={n} mode={mode_conf} notify={nk}', h_initiator, (n, mode_conf, nk),
                                      engine_kw={'max_wall_s': 600}))
+                if n == 1 and nk == 'keep':
+                    inst.append(Instance(f'initiator rekey response |TS|={n} mode={mode_conf} notify={nk}', h_initiator, (n, mode_conf, nk, 'rekey'),
+                                         engine_kw={'max_wall_s': 600}))
     inst.append(Instance('from_network/get_port round trip', h_port, ()))
     inst.append(Instance('get_port', h_getport, ()))
     return inst
@@ -499,7 +506,7 @@ def replay_file(path):
     """native replay of a selector counterexample: recompute is_subset and brute-force the packet semantics on the
     boundary packets of both selectors"""
     global MODS
-    if json.load(open(path)).get('instance', '').startswith(('initiator response', 'kernel SAs', 'network <->', 'responder mode', 'kernel selector bytes', 'two overlapping')):
+    if json.load(open(path)).get('instance', '').startswith(('initiator response', 'initiator rekey response', 'kernel SAs', 'network <->', 'responder mode', 'kernel selector bytes', 'two overlapping')):
         return common.generic_replay_file(path, lambda: build_instances('thorough') + build_instances('quick'), _load_world_native)
     MODS = common.load_repo(shim=False)
     TS = MODS['message'].TrafficSelector
